@@ -4,13 +4,19 @@ from props.c01 import _cfg
 
 TRUSTED = [
     "modelled, not verified: util_conv_char's table (the 64-character alphabet is part of the model)",
+    "ep2 codec (Model/Ep2Conv.lean): proved — a successful decoding is on the curve, uncompressed decode(encode(P)) = P, the compression bit "
+    "separates y from -y; NOT proved — the compressed round trip (needs the field structure of Fp2 and the square-root contract): decided "
+    "per presented line, the driver verifies the library's root, decides solvability with the norm and demands that the library's own "
+    "re-encoding reproduces the input; every decode runs into three different destination contents (identity, generator, junk)",
 ]
 ASSUMPTIONS = [
     "malformed numerals (a character that is not a digit of the radix) are read up to the first bad character: that is the library's "
     "documented-by-code behaviour and is compared model-vs-implementation only",
 ]
 RULE = ("integers of every length 0..capacity and sign, every radix 2..64 (plus invalid 0,1,65), output buffer lengths size-1, size, size+1, "
-        "size+17 and 0, byte strings of every length 0..capacity+9 bytes incl. leading zeros; non-trivial = distinct line with a non-error result")
+        "size+17 and 0, byte strings of every length 0..capacity+9 bytes incl. leading zeros; prime-curve and twist (Fp2) points in both formats "
+        "with every kind of damage (tags 0..7/0x80/0xff, coefficients >= p, flipped bits, wrong lengths, tag/length mismatch, other sign), "
+        "twist points with y in Fp; non-trivial = distinct line with a non-error result")
 
 ALPHA = "0123456789ABCDEFGHIJKLMNOPQRSTUVWXYZabcdefghijklmnopqrstuvwxyz+/"
 
@@ -134,6 +140,138 @@ def enc_lines(rng, cv, n):
     return out
 
 
+def cbrt_f2(f, c, rnd):
+    """cube root in Fp2 = Fp[u]/(u^2 - qnr), None if c is not a cube"""
+    p = f.p
+    q = p * p
+
+    def fpow(a, e):
+        r = (1, 0)
+        while e:
+            if e & 1:
+                r = f.mul(r, a)
+            a = f.mul(a, a)
+            e >>= 1
+        return r
+    if c == (0, 0):
+        return c
+    if (q - 1) % 3 != 0:
+        return fpow(c, pow(3, -1, q - 1))
+    if fpow(c, (q - 1) // 3) != (1, 0):
+        return None
+    s, m = 0, q - 1
+    while m % 3 == 0:
+        s += 1
+        m //= 3
+    r0 = fpow(c, pow(3, -1, m))
+    z = f.mul(f.mul(f.mul(r0, r0), r0), f.inv(c))      # r0^3 / c lies in the 3-Sylow subgroup
+    while True:
+        g = (rnd.below(p), rnd.below(p))
+        if g != (0, 0) and fpow(g, (q - 1) // 3) != (1, 0):
+            break
+    h = fpow(g, m)
+    w = (1, 0)
+    for _ in range(3 ** s):
+        if f.mul(f.mul(w, w), w) == z:
+            return f.mul(r0, f.inv(w))
+        w = f.mul(w, h)
+    return None
+
+
+def y_in_fp_points(rng, cv, n):
+    """points of the twist whose y-coordinate lies in Fp (second coefficient zero): the sign of such a y is the sign of its first
+    coefficient; needs a = 0 (x^3 = y^2 - b solved by a cube root in Fp2)"""
+    pts = []
+    if cv.a != (0, 0):
+        return pts
+    tries = 0
+    while len(pts) < n and tries < 40 * n:
+        tries += 1
+        y0 = 1 + rng.below(cv.p - 1)
+        x = cbrt_f2(cv.f, cv.f.sub((y0 * y0 % cv.p, 0), cv.b), rng)
+        if x is not None:
+            pts.append((x, (y0, 0)))
+            pts.append((x, (cv.p - y0, 0)))
+    return pts
+
+
+def enc2_lines(rng, cv, exe, cid, n):
+    import props.c11 as c11
+    p = cv.p
+    nb = (p.bit_length() + 7) // 8
+    half = (p - 1) // 2
+    pool = [cv.g, cv.mul(cv.g, 2), cv.mul(cv.g, cv.n - 1)] + [cv.mul(cv.g, 1 + rng.below(cv.n - 1)) for _ in range(6)]
+    pool += c11.outside_points(exe, cid, cv, rng, 4)
+    special = y_in_fp_points(rng, cv, 3)
+    pool += special
+
+    def sign(y):
+        return int(y[0] > half) if y[1] == 0 else int(y[1] > half)
+
+    def enc(P, pack):
+        if P is None:
+            return "00"
+        (x, y) = P
+        if pack:
+            return "%02x%0*x%0*x" % (2 + sign(y), 2 * nb, x[0], 2 * nb, x[1])
+        return "04%0*x%0*x%0*x%0*x" % (2 * nb, x[0], 2 * nb, x[1], 2 * nb, y[0], 2 * nb, y[1])
+
+    out = []
+    for P in special:                         # always presented, in both formats
+        out.append("e2wb %d 1 %s" % (2 * nb + 1, c11.ptok(rng, cv, P, None)))
+        out.append("e2rb " + enc(P, True))
+        out.append("e2rb " + enc(P, False))
+    for _ in range(n):
+        k = rng.below(100)
+        P = rng.choice(pool + [None])
+        if k < 30:
+            pack = rng.below(2)
+            need = 1 if P is None else (2 * nb + 1 if pack else 4 * nb + 1)
+            ln = rng.choice([need, need, need, need - 1, need + 1, 0, 1, 2 * nb + 1, 4 * nb + 1, 4 * nb + 9])
+            out.append("e2wb %d %d %s" % (max(ln, 0), pack, c11.ptok(rng, cv, P, rng.choice([None, None, "P", "J"]))))
+        elif k < 55:
+            out.append("e2rb " + enc(P, rng.below(2)))
+        else:
+            # malformed: every kind of damage the property names
+            pack = rng.below(2)
+            if P is None:
+                P = cv.g
+            h = bytearray.fromhex(enc(P, pack))
+            kind = rng.below(9)
+            if kind == 0:
+                h[0] = rng.choice([0, 1, 2, 3, 4, 5, 6, 7, 0x80, 0xff])
+            elif kind == 1:                    # a coordinate coefficient >= p
+                j = rng.below(2 if pack else 4)
+                v = rng.choice([p, p + 1, (1 << (8 * nb)) - 1])
+                h[1 + j * nb:1 + (j + 1) * nb] = v.to_bytes(nb, "big")
+            elif kind == 2:                    # off the curve / another x (non-square right-hand side for half of them)
+                j = 1 + rng.below(len(h) - 1)
+                h[j] ^= 1 << rng.below(8)
+            elif kind == 3:                    # wrong length
+                ln = rng.choice([0, 1, 2, nb, 2 * nb, 2 * nb + 2, 3 * nb + 1, 4 * nb, 4 * nb + 2, 6 * nb + 1])
+                h = (h + bytearray(rng.bytes(6 * nb + 1)))[:ln]
+            elif kind == 4:                    # compressed tag on an uncompressed-length string and vice versa
+                full = bytearray.fromhex(enc(P, 0))
+                h = full if rng.below(2) else bytearray.fromhex(enc(P, 1))
+                h[0] = rng.choice([2, 3]) if len(h) == 4 * nb + 1 else 4
+            elif kind == 5:                    # random x: decodable for about half
+                h = bytearray([rng.choice([2, 3])]) + bytearray((rng.bits(8 * nb) % p).to_bytes(nb, "big")) + \
+                    bytearray((rng.bits(8 * nb) % p).to_bytes(nb, "big"))
+            elif kind == 6:                    # the other sign bit: valid, another point
+                if pack:
+                    h[0] ^= 1
+            elif kind == 7:                    # lone non-zero byte / lone zero byte
+                h = bytearray([rng.choice([0, 0, 1, 2, 4, 0xff])])
+            else:                              # negated y in the uncompressed form: valid
+                if not pack:
+                    y0 = int.from_bytes(h[1 + 2 * nb:1 + 3 * nb], "big")
+                    y1 = int.from_bytes(h[1 + 3 * nb:1 + 4 * nb], "big")
+                    h[1 + 2 * nb:1 + 3 * nb] = ((p - y0) % p).to_bytes(nb, "big")
+                    h[1 + 3 * nb:1 + 4 * nb] = ((p - y1) % p).to_bytes(nb, "big")
+            out.append("e2rb " + (bytes(h).hex() or "."))
+    return out
+
+
 def streams(ctx, scale=1):
     n = (2500 if ctx.tier == "quick" else 80000) * scale
     res = []
@@ -148,6 +286,18 @@ def streams(ctx, scale=1):
         lines.append("ep_param %d" % cid)
         lines += enc_lines(ctx.rng, c03.Cv(kv), (250 if ctx.tier == "quick" else 8000) * scale)
     res.append({"name": "enc-base", "cfg": "base", "exe": exe, "lines": lines})
+    # point encodings of the twist over Fp2 on both pairing curves (ep2_write_bin / ep2_read_bin, ep2_pck / ep2_upk)
+    import props.c11 as c11
+    exe2 = c11._exe(ctx, "base")
+    lines = ["cfg"]
+    for cid in c11.CURVES.get("base") or c11.pairing_ids(exe2):
+        kv = c11.info(exe2, cid)
+        if "p" not in kv:
+            continue
+        cv = c11.Cv2(kv)
+        lines.append("ep2_param %d" % cid)
+        lines += enc2_lines(ctx.rng, cv, exe2, cid, (120 if ctx.tier == "quick" else 4000) * scale)
+    res.append({"name": "enc-ep2-base", "cfg": "base", "exe": exe2, "lines": lines})
     for cfg in ("base", "w8"):
         exe = ctx.oracle(cfg)
         hdr, kv = _cfg(exe)
